@@ -337,14 +337,13 @@ theorem rulesLoop_load (names : List Str) :
         · next hnew =>
           obtain ⟨b, hb⟩ := shardVerify_parseRule s hv
           have sp := parseRule_spec s b hb
-          have uf := useNamespaceSlices_fields names b
           rw [if_neg (by simp), hb]
           simp only
-          have hdef : ¬ rtOf (useNamespaceSlices names b).ruleType = .default := by
-            rw [uf.2.2.1, sp.2.2.1, hrt]; simp
+          have hdef : ¬ rtOf b.ruleType = .default := by
+            rw [sp.2.2.1, hrt]; simp
           rw [if_neg hdef]
-          have hkey : ((useNamespaceSlices names b).db, (useNamespaceSlices names b).table) = (s.db, toLower s.table) := by
-            rw [uf.1, uf.2.1, sp.1, sp.2.1]
+          have hkey : (b.db, b.table) = (s.db, toLower s.table) := by
+            rw [sp.1, sp.2.1]
           rw [hkey]
           have hnl : rtOf s.typ ≠ .linked := by rw [hrt]; simp
           have hnot : ¬ (lookup rr (s.db, toLower s.table)).isSome = true := by
@@ -356,8 +355,7 @@ theorem rulesLoop_load (names : List Str) :
               exact hnew hs
           rw [if_neg hnot]
           exact rulesLoop_load names rest lv _ _ lv' rv'
-            (inv.add_base (s.db, toLower s.table) s.typ (useNamespaceSlices names b)
-              (by rw [uf.2.2.1, sp.2.2.1]) hnl hnew) h
+            (inv.add_base (s.db, toLower s.table) s.typ b sp.2.2.1 hnl hnew) h
 
 theorem linkedLoop_load (rv : TypeMap) :
     ∀ (linked : List Shard) (rr : RuleMap),
